@@ -15,12 +15,12 @@ from ..oracles import storemodel as sm
 META = dict(
     level="exploration",
     design_ref="DESIGN.md §5 C39",
-    technique="history monitor with file digests: random interleavings of reads and write attempts (operators, parts, recipes, metadata, update, dump, close-again, with-blocks) on EKOs opened read-only or already closed; the outcome of every attempt (must raise an eko OutputError) and the sha256 of the archive bytes after every attempt are observed",
+    technique="history monitor with file digests: random interleavings of reads and write attempts (operators, parts, new recipes, re-storing recipes already registered/read and cached, metadata, update, dump, close-again, with-blocks) on EKOs opened read-only or already closed; the outcome of every attempt (must raise an eko OutputError) and the sha256 of the archive bytes after every attempt are observed",
     level_text="Randomised exploration of sessions on real archives. Every write attempt through the EKO/Inventory API listed in DESIGN.md is exercised in three states (open read-only, closed after read-only use, closed after a writable session created by edit or by the builder) and decided individually; the archive digest is taken after each attempt, not only at the end.",
     level_note="Trusted base: sha256 of the archive file, python exception semantics. A second close()/leaving a with-block after close() may either raise or be a no-op; both are accepted as long as the archive is untouched. Direct manipulation of Metadata/AccessConfigs objects (bypassing EKO) is outside the property.",
     rule="case = one session (state, sequence of actions); distinct by seed index; non-trivial = the archive holds at least one operator and the session made at least 3 write attempts of at least 2 different kinds",
     min_nontrivial=100,
-    required_hits=["write_attempts", "digest_checks", "state_readonly", "state_closed-readonly", "state_closed-writable", "close_again", "reads"],
+    required_hits=["write_attempts", "digest_checks", "state_readonly", "state_closed-readonly", "state_closed-writable", "close_again", "reads", "restore_cached_recipe"],
     max_inconclusive_frac=0.02,
 )
 
@@ -59,18 +59,37 @@ def _session(rng, work, seed, idx):
     keys = [(float(rng.uniform(2.0, 1e4)), int(rng.integers(3, 7))) for _ in range(nops)]
     state = ["readonly", "closed-readonly", "closed-writable"][int(rng.integers(3))]
     how_closed = None
+    # recipes that are legitimately registered in the archive (and, below, in the in-memory cache of the
+    # session under test): storing them AGAIN on a read-only / closed EKO must raise like any other store
+    evo_reg = Evolution(origin=2.0, target=float(rng.uniform(3.0, 50.0)), nf=int(rng.integers(3, 7)), cliff=bool(rng.integers(2)))
+    mat_reg = Matching(scale=float(rng.uniform(3.0, 50.0)), hq=int(rng.integers(4, 7)), inverse=bool(rng.integers(2)))
+    cached = dict(recipes=False)
+
+    def read_recipes(e):
+        """Legitimate read access that brings the registered recipes into the inventory cache."""
+        if rng.random() < 0.5:
+            e.recipes.sync()
+            e.recipes_matching.sync()
+        else:
+            _ = e.recipes[evo_reg]
+            _ = e.recipes_matching[mat_reg]
+        cached["recipes"] = True
+
     # ---- prepare the archive (writable sessions are legitimate here)
     try:
         with EKO.create(path) as b:
             e0 = b.load_cards(th, opc).build()
             for k in keys:
                 e0[k] = newop()
+            e0.load_recipes([evo_reg, mat_reg])
         if state == "readonly":
             eko = EKO.read(path)
         elif state == "closed-readonly":
             eko = EKO.read(path)
             if keys and rng.random() < 0.5:
                 _ = eko[keys[0]]
+            if rng.random() < 0.8:
+                read_recipes(eko)
             how_closed = "close" if rng.random() < 0.5 else "with"
             if how_closed == "close":
                 eko.close()
@@ -86,6 +105,12 @@ def _session(rng, work, seed, idx):
                     k = (float(rng.uniform(2.0, 1e4)), 4)
                     eko[k] = newop()
                     keys.append(k)
+                if rng.random() < 0.8:
+                    if rng.random() < 0.5:
+                        eko.load_recipes([evo_reg, mat_reg])  # registered while the EKO is open and writable
+                        cached["recipes"] = True
+                    else:
+                        read_recipes(eko)
                 eko.close()
             elif r == 1:
                 how_closed = "edit+with"
@@ -94,6 +119,12 @@ def _session(rng, work, seed, idx):
                         k = (float(rng.uniform(2.0, 1e4)), 4)
                         eko[k] = newop()
                         keys.append(k)
+                    if rng.random() < 0.8:
+                        if rng.random() < 0.5:
+                            eko.load_recipes([evo_reg, mat_reg])
+                            cached["recipes"] = True
+                        else:
+                            read_recipes(eko)
             else:
                 how_closed = "builder"
                 path = pathlib.Path(work) / "b.tar"
@@ -101,6 +132,8 @@ def _session(rng, work, seed, idx):
                     eko = b.load_cards(th, opc).build()
                     for k in keys:
                         eko[k] = newop()
+                    eko.load_recipes([evo_reg, mat_reg])
+                    cached["recipes"] = True
     except Exception as ex:
         rec["incs"].append(f"preparing the archive failed: {type(ex).__name__}: {str(ex)[:200]}")
         return rec
@@ -135,6 +168,15 @@ def _session(rng, work, seed, idx):
     def w_load_recipes():
         eko.load_recipes([evo, mat])
 
+    def w_recipes_registered():
+        eko.recipes[evo_reg] = None
+
+    def w_recipes_matching_registered():
+        eko.recipes_matching[mat_reg] = None
+
+    def w_load_recipes_registered():
+        eko.load_recipes([evo_reg, mat_reg] if rng.random() < 0.5 else [mat_reg, evo_reg])
+
     def w_xgrid():
         eko.xgrid = interpolation.XGrid([0.1, 0.5, 1.0])
 
@@ -147,7 +189,8 @@ def _session(rng, work, seed, idx):
     writes = dict(
         setitem_new=w_setitem_new, setitem_existing=w_setitem_existing, inventory_operators=w_inventory_operators,
         parts=w_parts, parts_matching=w_parts_matching, recipes=w_recipes, recipes_matching=w_recipes_matching,
-        load_recipes=w_load_recipes, xgrid=w_xgrid, update=w_update, dump=w_dump,
+        load_recipes=w_load_recipes, recipes_registered=w_recipes_registered,
+        recipes_matching_registered=w_recipes_matching_registered, load_recipes_registered=w_load_recipes_registered, xgrid=w_xgrid, update=w_update, dump=w_dump,
     )
 
     def check_digest(after):
@@ -161,6 +204,12 @@ def _session(rng, work, seed, idx):
         return True
 
     actions = []
+    if state == "readonly" and rng.random() < 0.6:
+        try:
+            read_recipes(eko)
+            actions.append("read-recipes")
+        except Exception as ex:
+            fail(f"C39/{state}/read/raises", f"reading the registered recipes on an open read-only EKO raised {type(ex).__name__}: {str(ex)[:200]}", actions=actions)
     kinds_done = set()
     nwrites = 0
     alive = True
@@ -172,6 +221,8 @@ def _session(rng, work, seed, idx):
             hit("write_attempts")
             nwrites += 1
             kinds_done.add(name)
+            if name.endswith("_registered"):
+                hit("restore_cached_recipe" if cached["recipes"] else "restore_uncached_recipe")
             try:
                 writes[name]()
             except exceptions.OutputError:
@@ -186,7 +237,7 @@ def _session(rng, work, seed, idx):
             actions.append("read")
             hit("reads")
             try:
-                which = int(rng.integers(6))
+                which = int(rng.integers(7))
                 if which == 0 and keys:
                     _ = eko[keys[int(rng.integers(len(keys)))]]
                 elif which == 1:
@@ -196,6 +247,8 @@ def _session(rng, work, seed, idx):
                         pass
                 elif which == 3:
                     _ = eko.approx((10.0, 4))
+                elif which == 6:
+                    read_recipes(eko)
                 elif which == 4:
                     _ = eko.theory_card, eko.operator_card, eko.raw, eko.permissions
                 else:
